@@ -104,6 +104,46 @@ def gen_combinators(rng):
     return al, rules
 
 
+def gen_covering(rng):
+    """a multi-compound extender of T next to something that covers the selector it generates with a lower specificity
+    (a second extender of T that is a superselector of the first one's subject, or such a selector already in the target
+    rule's list): trimming must keep the generated selector unless what covers it is at least as specific as the extender"""
+    al = G.alphabet(rng, rng.range(3, 4))
+    names = [x for x in al if not x.startswith("::")]
+    rng.shuffle(names)
+    if len(names) < 3:
+        return gen_sheet(rng)
+    T, L, E = names[0], names[1], names[2]
+    extra = names[3] if len(names) > 3 else L
+    comb = rng.choice([" ", " ", " > ", " + ", " ~ "])
+    e1 = L + comb + E + (extra if rng.chance(0.2) and not extra[0].isalpha() and extra != E else "")
+    tsel = rng.choice([T, T, T + (extra if not extra[0].isalpha() and extra != T else ""), T + ", " + E, E + ", " + T])
+    rules = [{"sel": tsel, "extends": []}, {"sel": e1, "extends": [(T, False)]}]
+    k = rng.below(4)
+    if k == 0:
+        rules.append({"sel": E, "extends": [(T, False)]})
+    elif k == 1:
+        rules.append({"sel": rng.choice([E, L + " " + E]) if comb != " " else E, "extends": [(T, False)]})
+    elif k == 2:
+        rules.append({"sel": E + ", " + L, "extends": [(T, False)]})
+    rng.shuffle(rules)
+    return al, rules
+
+
+def unify_simple(last, rest):
+    """compound `last` extended by the simple selectors `rest` (None when they cannot be one compound / not modelled)"""
+    out = list(last)
+    for s_ in rest:
+        if s_ in out:
+            continue
+        if s_[0] in ("type", "univ", "pe", "pc", "ph"):
+            return None
+        if s_[0] == "id" and any(o[0] == "id" for o in out):
+            return None
+        out.append(s_)
+    return out
+
+
 def sheet_text(rules, order=None):
     idx = list(range(len(rules))) if order is None else order
     out = []
@@ -287,6 +327,51 @@ def judge_sheet(sh, al, rules, res, text, nodes, reversed_res=None):
                     sh.violation("second-law:" + h, "generated selector `%s` (specificity %s) is less specific than every extender (%s)\n%s" % (
                         sel.complex_text(cx), sel.specificity(cx), ext_specs, text), rp, dict(facts, rule=i))
                     return
+    # second law through trimming: a target that is a whole member `T R` of a rule's list (one compound) extended by a
+    # multi-compound extender `A B` always generates `A B.R`; it may only be dropped from the output when what covers its
+    # elements there is at least as specific as the extender
+    if "(" not in text and "::" not in text and "@media" not in text:
+        for i, r in enumerate(rules):
+            new = outp.get(i)
+            if new is None:
+                continue
+            for member in parsed[i]:
+                if len(member) != 1:
+                    continue
+                cp = member[0][1]
+                for j, rr in enumerate(rules):
+                    for t, _ in rr["extends"]:
+                        tt = [s_ for s_ in cp if sel.simple_text(s_) == t]
+                        if len(tt) != 1:
+                            continue
+                        rest = [s_ for s_ in cp if s_ is not tt[0]]
+                        for ecx in parsed[j]:
+                            if len(ecx) < 2:
+                                continue
+                            # (the specificity an extender's simple selectors stand for is recorded per simple selector,
+                            # first registration wins — so the bound is only certain when the extender has a simple
+                            # selector that no other extender in the sheet shares)
+                            others = {sel.simple_text(s_) for jj, r2 in enumerate(rules) if r2["extends"] for cx2 in parsed[jj] if cx2 is not ecx
+                                      for _, cp2 in cx2 for s_ in cp2}
+                            if all(sel.simple_text(s_) in others for _, cp2 in ecx for s_ in cp2):
+                                continue
+                            last = unify_simple(ecx[-1][1], rest)
+                            if last is None:
+                                continue
+                            g = list(ecx[:-1]) + [(ecx[-1][0], last)]
+                            need = sel.specificity(ecx)
+                            strong = [cx for cx in new if sel.specificity(cx) >= need]
+                            for u in us:
+                                grow = u.match_all([g])
+                                crow = u.match_all(strong) if strong else [0] * u.n
+                                for e in range(u.n):
+                                    bad = grow[e] & ~crow[e]
+                                    if bad:
+                                        sh.violation("second-law-trim:" + h, "rule %d `%s` extended by `%s` (specificity %s): the generated `%s` is not in the output `%s`, and element #%d of %s is only reached through less specific selectors\n%s" % (
+                                            i, r["sel"], sel.complex_text(ecx), need, sel.complex_text(g), sel.to_text(new), e, u.witness(bad), text), rp,
+                                            dict(facts, rule=i, rewritten=sel.to_text(new), generated=sel.complex_text(g), dom=u.witness(bad), **shape_facts(rules, parsed)))
+                                        return
+                            sh.count("second_law_trim_judged")
     # order independence
     if reversed_res is not None and "ok" in reversed_res and len(reversed_res["ok"]) > 6000:
         sh.inconc("reversed-output-too-large")
@@ -375,7 +460,7 @@ def run(sh):
         run_families(sh)
     n = 0
     while not sh.expired():
-        cases = [gen_chain(rng) if rng.chance(0.2) else (gen_combinators(rng) if rng.chance(0.2) else gen_sheet(rng)) for _ in range(8)]
+        cases = [gen_chain(rng) if rng.chance(0.2) else (gen_combinators(rng) if rng.chance(0.2) else (gen_covering(rng) if rng.chance(0.15) else gen_sheet(rng))) for _ in range(8)]
         specs = []
         for al, rules in cases:
             specs.append({"text": sheet_text(rules)})
